@@ -611,3 +611,144 @@ def mon_c10(ex, info, col):
                 if k < len(r.cost_list) and r.cost_list[k] != 0.0:
                     out.append(V("C10", "C10:absent-resource-charged" + (":project-wide" if pa else ":individual"), ex, {"k": k, "resource": rn, "cost": r.cost_list[k]}))
     return out
+
+
+# ------------------------------------------------------------------------------------------ C13
+def _top_most(info, placed):
+    """components of `placed` none of whose ancestors is also in `placed` (a nested assembly counts once)."""
+    placed = set(placed)
+
+    def has_placed_ancestor(c, seen=()):
+        for p in info.comp_parents.get(c, []):
+            if p in placed or (p not in seen and has_placed_ancestor(p, seen + (c,))):
+                return True
+        return False
+
+    return [c for c in placed if not has_placed_ancestor(c)]
+
+
+def _shape(info, cn):
+    if cn is None:
+        return "no-component"
+    if info.comp_parents.get(cn) or info.comp_children.get(cn):
+        return "nested"
+    if len(info.comp_tasks.get(cn, [])) > 1:
+        return "multi-task"
+    return "flat"
+
+
+def mon_c13(ex, info, col):
+    out = []
+    bs = ex.by_step()
+    for t in sorted(bs):
+        phs = bs[t]
+        for ph, (working, sn) in phs.items():
+            comps, wps = sn["components"], sn["workplaces"]
+            where = {}
+            for wpn, lst in wps.items():
+                col.checks["c13.consistency"] += 1
+                if len(set(lst)) != len(lst):
+                    out.append(V("C13", "C13:component-listed-twice-at-a-workplace", ex, {"t": t, "phase": ph, "workplace": wpn, "placed": lst}))
+                for cn in lst:
+                    where.setdefault(cn, []).append(wpn)
+                    if comps[cn][1] != wpn:
+                        out.append(V("C13", "C13:workplace-lists-component-that-reports-another-place[%s]" % _shape(info, cn), ex,
+                                     {"t": t, "phase": ph, "workplace": wpn, "component": cn, "component_says": comps[cn][1]}))
+                used = sum((info.comps[c].get("space") or 1.0) for c in _top_most(info, lst))
+                cap = info.wp[wpn].get("cap")
+                cap = 1.0 if cap is None else cap
+                if lst:
+                    col.nontrivial.add(hash((info.key, wpn, tuple(sorted(lst)))))
+                if used > cap + 1e-8:
+                    out.append(V("C13", "C13:capacity-exceeded[%s]" % ("nested" if any(_shape(info, c) == "nested" for c in lst) else "flat"), ex, {"t": t, "phase": ph, "workplace": wpn, "placed": lst, "used": used, "capacity": cap}))
+            for cn, (cs, wpn) in comps.items():
+                if len(where.get(cn, [])) > 1:
+                    out.append(V("C13", "C13:component-at-several-workplaces", ex, {"t": t, "phase": ph, "component": cn, "workplaces": where[cn]}))
+                if wpn is not None and cn not in wps.get(wpn, ()):
+                    out.append(V("C13", "C13:component-reports-place-but-workplace-does-not-list-it[%s]" % _shape(info, cn), ex, {"t": t, "phase": ph, "component": cn, "workplace": wpn}))
+            if ph == "updated":
+                for cn in info.comps:
+                    if info.comp_parents.get(cn):
+                        continue
+                    if all(sn["tasks"][tn][0] == S.T_FINISHED for tn in info.comp_tasks[cn]):
+                        col.checks["c13.leave"] += 1
+                        stack = [cn]
+                        while stack:
+                            c = stack.pop()
+                            # a descendant is only required to have left when its own tasks are FINISHED too
+                            own_done = all(sn["tasks"][tn][0] == S.T_FINISHED for tn in info.comp_tasks[c])
+                            if comps[c][1] is not None and own_done and (c != cn or info.comp_tasks[cn] or True):
+                                out.append(V("C13", "C13:still-placed-after-top-level-tasks-FINISHED[%s]" % _shape(info, c), ex, {"t": t, "top": cn, "component": c, "workplace": comps[c][1]}))
+                            stack.extend(info.comp_children.get(c, []))
+            if ph in ("allocated", "performed", "recorded"):
+                for tn in info.tnames:
+                    if not info.needs_facility(tn):
+                        continue
+                    fs = sn["tasks"][tn][3]
+                    cn = info.task_comp.get(tn)
+                    if fs and cn is not None:
+                        col.checks["c13.site"] += 1
+                        wpn = comps[cn][1]
+                        for f in fs:
+                            if info.fac_wp[f] != wpn:
+                                out.append(V("C13", "C13:task-works-with-facility-of-another-workplace[%s]" % _shape(info, cn), ex,
+                                             {"t": t, "phase": ph, "task": tn, "facility": f, "facility_workplace": info.fac_wp[f], "component": cn, "component_workplace": wpn}))
+        # placement events of the allocation part of this step
+        if "updated" in phs:
+            su = phs["updated"][1]
+            cur = {cn: v[1] for cn, v in su["components"].items()}
+            seqs = {cn: [cur[cn]] for cn in cur}
+            for ev in ex.placements.get((t, "alloc"), []):
+                if ev[0] == "comp_set":
+                    seqs[ev[1]].append(ev[2])
+            for cn, seq in seqs.items():
+                # collapse the library's "set None, then set" pattern and repeated values
+                vals = [seq[0]]
+                for i in range(1, len(seq)):
+                    v = seq[i]
+                    if v is None and i + 1 < len(seq):
+                        continue
+                    if v != vals[-1]:
+                        vals.append(v)
+                moves = len(vals) - 1
+                col.checks["c13.moves"] += 1
+                if moves > 1:
+                    out.append(V("C13", "C13:component-moved-more-than-once-in-one-step[%s]" % _shape(info, cn), ex, {"t": t, "component": cn, "places": vals}))
+                for a, b in zip(vals, vals[1:]):
+                    if b is not None:
+                        col.nontrivial.add(hash((info.key, "move", cn, a, b)))
+                        ins = info.wp_inputs.get(b, [])
+                        if ins and a is not None and a not in ins:
+                            out.append(V("C13", "C13:entered-workplace-not-from-its-input-workplaces[%s]" % _shape(info, cn), ex, {"t": t, "component": cn, "from": a, "to": b, "inputs": ins}))
+                    if a != b and any(su["tasks"][tn][0] == S.T_WORKING for tn in info.comp_tasks[cn]):
+                        out.append(V("C13", "C13:component-moved-while-a-task-of-it-is-WORKING[%s]" % _shape(info, cn), ex, {"t": t, "component": cn, "from": a, "to": b}))
+    # logs
+    m = ex.m
+    for cn in info.comps:
+        c = m.byname[cn]
+        for k, wpn in enumerate(c.placed_workplace_id_record):
+            col.checks["c13.log"] += 1
+            if wpn is not None:
+                rec = m.byname[wpn].placed_component_id_record
+                if k < len(rec) and rec[k] is not None and cn not in rec[k]:
+                    out.append(V("C13", "C13:logs-disagree-component-placed-but-workplace-log-omits-it", ex, {"k": k, "component": cn, "workplace": wpn}))
+    for wpn in info.wp:
+        w = m.byname[wpn]
+        for k, lst in enumerate(w.placed_component_id_record):
+            if lst is None:
+                continue
+            for cn in lst:
+                rec = m.byname[cn].placed_workplace_id_record
+                if k < len(rec) and rec[k] != wpn:
+                    out.append(V("C13", "C13:logs-disagree-workplace-lists-component-logged-elsewhere", ex, {"k": k, "component": cn, "workplace": wpn, "component_log": rec[k]}))
+    for tn in info.tnames:
+        if not info.needs_facility(tn) or tn not in info.task_comp:
+            continue
+        task = m.byname[tn]
+        crec = m.byname[info.task_comp[tn]].placed_workplace_id_record
+        for k, fs in enumerate(task.allocated_facility_id_record):
+            if fs and k < len(crec):
+                for f in fs:
+                    if info.fac_wp[f] != crec[k]:
+                        out.append(V("C13", "C13:logged-facility-of-another-workplace[%s]" % _shape(info, info.task_comp[tn]), ex, {"k": k, "task": tn, "facility": f, "component_workplace": crec[k]}))
+    return out
